@@ -167,13 +167,10 @@ def impl_run(TableBundle, NotUnique, blocks, as_df, qs, n):
     """Build the real bundle and answer the queries.  Objects are reported as identity tokens: block index i for the
     block value itself, i + DF for its `.df` (a value occurring in several blocks gets the indices in order)."""
     try:
-        b = TableBundle(iter(blocks), as_dataframe=as_df)
-    except NotImplementedError:
-        return {"exc": "NotImplementedError"}
-    except UnboundLocalError:
-        return {"exc": "UnboundLocalError"}
-    except IndexError:
-        return {"exc": "IndexError"}
+        # the flag is passed by keyword or positionally (second parameter), alternating by block count
+        b = TableBundle(iter(blocks), as_dataframe=as_df) if n % 2 else TableBundle(iter(blocks), as_df)
+    except Exception as e:  # noqa: BLE001 — the class is reported; model and oracle say which ones are expected
+        return {"exc": type(e).__name__}
     order_ids = [id(x) for x in b]
     remaining = {}
     for i in range(n):
